@@ -4,6 +4,7 @@ package reftable
 
 import (
 	"bytes"
+	"io/ioutil"
 	"math"
 )
 
@@ -415,5 +416,74 @@ func Harness_C01_table_logwindow() {
 	l := &LogRecord{RefName: "a", UpdateIndex: 1, Time: 5, New: hashWith(20, 1, 1), Old: hashWith(20, 2, 2), Name: "n", Email: "e", Message: string(msg)}
 	ok := tableRoundTrip(cfg, 1, 1, refs, []*LogRecord{l})
 	VerifAssert(ok, "writer-accepts")
+	VerifCover("done")
+}
+
+// Harness_C01_table_file: a table read from a file, with a ref iterator, a log iterator and a second ref iterator of the same reader advancing in lock-step, reads back what was written (block buffers of one reader's iterators are independent).
+// bounds: shapes 2, 4 and 5 of the shaped tables (refs and logs, several blocks per section, indexes) written to a file on the (modelled) file system and opened with NewFileBlockSource; three iterators advanced alternately; one ref value byte symbolic
+// covers: done
+func Harness_C01_table_file() {
+	sh := pickShape([]int{2, 4, 5}[VerifChoose(3)])
+	refs, logs := buildShape(sh)
+	if refs[len(refs)-1].Value != nil {
+		refs[len(refs)-1].Value[2] = VerifU8()
+	}
+	data, ok := writeTable(sh.cfg, 1, 4, refs, logs)
+	VerifAssert(ok, "writer-accepts")
+	dir := VerifTempDir()
+	path := dir + "/0x000000000001-0x000000000004-00000001.ref"
+	var werr error
+	VerifQuiet(func() { werr = ioutil.WriteFile(path, data, 0644) })
+	VerifAssert(werr == nil, "write-file")
+	src, err := NewFileBlockSource(path)
+	VerifAssert(err == nil, "open-file")
+	if err != nil {
+		return
+	}
+	rd, err := NewReader(src, "t")
+	VerifAssert(err == nil, "newreader")
+	if err != nil {
+		return
+	}
+	hs := hsOf(sh.cfg)
+	itR, err := rd.SeekRef("")
+	VerifAssert(err == nil, "seekref-start")
+	itL, err2 := rd.SeekLog("", math.MaxUint64)
+	VerifAssert(err2 == nil, "seeklog-start")
+	mid := refs[len(refs)/2].RefName
+	itM, err3 := rd.SeekRef(mid)
+	VerifAssert(err3 == nil, "seekref-mid")
+	if err != nil || err2 != nil || err3 != nil {
+		return
+	}
+	n := len(refs)
+	if len(logs) > n {
+		n = len(logs)
+	}
+	for i := 0; i <= n; i++ {
+		var r, r2 RefRecord
+		okr, e := itR.NextRef(&r)
+		VerifAssert(e == nil, "ref-next-err")
+		VerifAssert(okr == (i < len(refs)), "ref-count")
+		if okr && i < len(refs) {
+			VerifAssert(refEq(&r, refs[i]), "ref-payload")
+		}
+		var l LogRecord
+		okl, e := itL.NextLog(&l)
+		VerifAssert(e == nil, "log-next-err")
+		VerifAssert(okl == (i < len(logs)), "log-count")
+		if okl && i < len(logs) {
+			want := specNormaliseLog(*logs[i], sh.cfg.ExactLogMessage, hs)
+			VerifAssert(logEq(&l, &want), "log-payload")
+		}
+		j := len(refs)/2 + i
+		okm, e := itM.NextRef(&r2)
+		VerifAssert(e == nil, "ref-next-err")
+		VerifAssert(okm == (j < len(refs)), "ref-count")
+		if okm && j < len(refs) {
+			VerifAssert(refEq(&r2, refs[j]), "ref-payload")
+		}
+	}
+	rd.Close()
 	VerifCover("done")
 }
